@@ -392,10 +392,10 @@ var c05Families = []string{"K-live", "K-live", "K-live", "K-read-seq", "K-read-l
 // (when the final status is ok) consumed count.
 func progsC05(rc *vk.Rec, env *wprog.Env) {
 	const phase = "progs-c05"
-	nTotal := rc.N(160, 6000)
+	nTotal := rc.N(64, 6000)
 	maxVar := 48
 	if !rc.Thorough() {
-		maxVar = 26 // quick tier: every variant is a package to generate and compile
+		maxVar = 16 // quick tier: every variant is a package to generate, compile and run (~1 CPU-second)
 	}
 	// every split-independent family/variant is run at least twice whatever the
 	// seed (spread over the shards), then the seeded random sample
